@@ -147,7 +147,16 @@ EXTRA4 = {
     'C16': 'Date formats in CSVW notation are translated for every spelling of the date types (DATEFMT); in a table group data and schema come from the same table (TABLEGROUP).',
     'C17': 'The default comparators accept the bound itself, also for integers beyond 2**53 (ROUNDTRIP).',
 }
+EXTRA5 = {
+    'C11': 'Every line naming the host, address, working directory, home directory, user or gentest\'s temporary directory - in any of six positions on the line - is flagged with that kind and no plain line is (SPECIFICS); the encoding guess is made from the whole file (ENCODING).',
+    'C05': 'A value fetched from a filtered column by an integer is fetched by position (POSLOOKUP: the selection is renumbered first, or .iloc).',
+    'C06': 'Row masks and flag columns meet the records by the same labels: no re-indexing between a mask and its use, no Series built without index= (ALIGNED).',
+    'C15': 'Several pairs compared through one message object (check_files): each artefact holds lines of its own pair only (ARTEFACTS).',
+    'C19': 'The pytest listing names a tagged method\'s class once (PYTABLE).',
+}
 for _k, _t in EXTRA4.items():
+    CLAIMS[_k]['text'] = CLAIMS[_k]['text'].rstrip() + ' ' + _t
+for _k, _t in EXTRA5.items():
     CLAIMS[_k]['text'] = CLAIMS[_k]['text'].rstrip() + ' ' + _t
 _SPEC = ('source-to-source specialisation before the rules run: helpers that are new with respect to the recorded function names '
          'are read in place at their call sites, wrapper delegation / operator.* / lambdas / constant tables folded (sa/specialise.py)')
